@@ -38,7 +38,7 @@ ASSUMPTIONS = [
 ]
 
 STATE_OPS = ["set_fc", "produce_fc", "symmetrize", "symmetrize_sg", "cutoff", "set_nac", "set_masses", "gen_disp", "gen_disp_random",
-             "set_forces", "set_dataset", "set_displacements", "copy", "switch", "invalid"]
+             "set_forces", "set_dataset", "set_displacements", "gen_disp_temp", "copy", "switch", "invalid"]
 QUERY_KINDS = ["qpoints", "mesh", "band", "gv_at_q", "dm_at_q", "freqs", "tp", "disp_cells", "dos"]
 GETTERS = ["force_constants", "nac_params", "dataset", "masses", "displacements", "forces", "supercell_matrix", "primitive_matrix",
            "supercell.scaled_positions", "supercell.cell", "supercell.masses", "primitive.masses", "unitcell.scaled_positions",
@@ -92,6 +92,8 @@ def _gen_ops(rng, n_ops, n_prim, world_has_nac, fault_mode, tier):
             return st["ds"] is not None
         if kind == "set_displacements":
             return st["ds"] == 2
+        if kind == "gen_disp_temp":
+            return st["fc"] is not None
         if kind == "set_nac":
             return world_has_nac
         if kind == "switch":
@@ -126,6 +128,8 @@ def _gen_ops(rng, n_ops, n_prim, world_has_nac, fault_mode, tier):
         kind = seq[i] if seq[i] else pick()
         if kind == "set_displacements" and not legal(kind):
             kind = "gen_disp_random"  # planted ahead of time; the dataset type changed meanwhile
+        if kind in ("gen_disp_temp", "cutoff") and not legal(kind):
+            kind = "set_fc"
         # the classic staleness pattern: setter, query (fills lazily built caches), the same setter with other values,
         # query - planted often enough that every batch contains it for every setter kind.  Half of the time the second
         # query repeats the first one literally (same kind, q-points, mesh numbers and options): result objects kept by the
@@ -168,6 +172,12 @@ def _gen_ops(rng, n_ops, n_prim, world_has_nac, fault_mode, tier):
             op.update(n=rng.choice([None, None, 1, 3]), seed=rng.randint(0, 10**6), amp=rng.choice([0.01, 0.04]))
             if op["n"] is not None:
                 st["forces"] = False
+        elif kind == "gen_disp_temp":
+            # finite-temperature random displacements are computed from the CURRENT force constants and masses
+            op.update(n=rng.randint(1, 3), seed=rng.randint(0, 10**6), temperature=rng.choice([100.0, 300.0, 900.0]))
+            st["ds"], st["forces"] = 2, False
+            if i + 2 < n_ops and seq[i + 1] is None and seq[i + 2] is None and rng.random() < 0.6:
+                seq[i + 1], seq[i + 2] = rng.choice(["set_fc", "set_masses", "cutoff"]), "gen_disp_temp"
         elif kind == "set_dataset":
             op.update(kind=rng.choice([1, 2, 2, None]), with_forces=rng.random() < 0.6, fscale=rng.choice([1.0, 1.3]), with_energies=rng.random() < 0.35)
             if planned.get(i) == "lesser":
@@ -219,7 +229,8 @@ def gen_spec(seed, index, tier):
     ops = _gen_ops(rng, n_ops, 8, bool(CRYSTALS[w.name].get("nac")), fault_mode, tier)
     if fault_mode and tier == "thorough" and rng.random() < 0.3:
         ops.insert(rng.randint(1, len(ops) - 1), {"op": "build_swap"})
-    init = dict(is_symmetry=rng.random() < 0.85, store_dense_svecs=rng.random() < 0.7, log_level=rng.choice([0, 0, 1, 2]))
+    init = dict(is_symmetry=rng.random() < 0.85, store_dense_svecs=rng.random() < 0.7, log_level=rng.choice([0, 0, 1, 2]),
+                factor=rng.choice([None, None, 521.47083, 108.97077]))  # constructor-level settings a copy must carry too
     return dict(seed=seed, world=w.spec, variant=variant, schedule=sched, init=init, ops=ops, fault_mode=fault_mode)
 
 
@@ -308,6 +319,10 @@ def _get(ph, getter):
     return f(), f
 
 
+def _factor_kw(init):
+    return {} if init.get("factor") is None else {"factor": init["factor"]}
+
+
 class Target:
     """One Phonopy object + the harness's model of its state."""
 
@@ -325,7 +340,7 @@ class Target:
 
         ph = self.ph
         f = Phonopy(ph.unitcell, supercell_matrix=ph.supercell_matrix, primitive_matrix=ph.primitive_matrix,
-                    is_symmetry=self.init["is_symmetry"], store_dense_svecs=self.init["store_dense_svecs"], log_level=0)
+                    is_symmetry=self.init["is_symmetry"], store_dense_svecs=self.init["store_dense_svecs"], log_level=0, **_factor_kw(self.init))
         f.masses = self.masses.copy()
         if self.nac is not None:
             f.nac_params = copy.deepcopy(self.nac)
@@ -342,7 +357,7 @@ class Target:
 
         ph = self.ph
         f = Phonopy(ph.unitcell, supercell_matrix=ph.supercell_matrix, primitive_matrix=ph.primitive_matrix,
-                    is_symmetry=self.init["is_symmetry"], store_dense_svecs=self.init["store_dense_svecs"], log_level=0)
+                    is_symmetry=self.init["is_symmetry"], store_dense_svecs=self.init["store_dense_svecs"], log_level=0, **_factor_kw(self.init))
         f.masses = self.masses.copy()
         return f
 
@@ -452,7 +467,7 @@ def execute(spec):
 
     sink = io.StringIO()
     with contextlib.redirect_stdout(sink):
-        ph0 = w.phonopy(is_symmetry=init["is_symmetry"], store_dense_svecs=init["store_dense_svecs"], log_level=init["log_level"])
+        ph0 = w.phonopy(is_symmetry=init["is_symmetry"], store_dense_svecs=init["store_dense_svecs"], log_level=init["log_level"], **_factor_kw(init))
         fc_model_full = w.force_constants(ph0.supercell)
         nac_model = None
         if CRYSTALS[w.name].get("nac"):
@@ -467,6 +482,11 @@ def execute(spec):
             violations.append({"class": cls, "site": site, "detail": dict(detail, step=len(kinds_seq), history=list(kinds_seq))})
 
         def check_handed_in(t, opname):
+            for ent in getattr(t, "handed_in_objs", []):
+                label, obj, snap_ = ent
+                if not same(snapshot(obj), snap_):
+                    V("handed-in-modified", "%s->%s" % (label, opname))
+                    ent[2] = snapshot(obj)
             for ent in t.handed_in:
                 label, arr, priv = ent
                 if not np.array_equal(arr, priv):
@@ -622,6 +642,23 @@ def execute(spec):
                         V("set-get-mismatch", "forces=.dataset", reported_keys=sorted(ph.dataset), expected_keys=sorted(expect))
                         expect = snapshot(ph.dataset)
                     t.dataset = expect if expect is not None else snapshot(ph.dataset)
+                elif kind == "gen_disp_temp":
+                    gkw = dict(number_of_snapshots=op["n"], temperature=op["temperature"], random_seed=op["seed"])
+                    bl = t.blank()
+                    bl.force_constants = t.fc.copy()
+                    bl.generate_displacements(**gkw)
+                    expect = snapshot(bl.dataset)
+                    t.dataset = None
+                    ph.generate_displacements(**gkw)
+                    t.dataset = expect
+                    got_ds = snapshot(ph.dataset)
+                    ok_ = isinstance(got_ds, dict) and sorted(got_ds) == sorted(expect) and all(
+                        (np.allclose(got_ds[k_], expect[k_], rtol=1e-9, atol=1e-12) if isinstance(expect[k_], np.ndarray) else got_ds[k_] == expect[k_]) for k_ in expect)
+                    if not ok_:
+                        V("stale-result", "generate_displacements(temperature).dataset", reported_keys=sorted(got_ds) if isinstance(got_ds, dict) else None, expected_keys=sorted(expect),
+                          maxdiff=(float(np.max(np.abs(got_ds["displacements"] - expect["displacements"]))) if isinstance(got_ds, dict) and "displacements" in got_ds
+                                   and np.shape(got_ds["displacements"]) == np.shape(expect["displacements"]) else None))
+                        t.dataset = got_ds
                 elif kind == "set_displacements":
                     # the `displacements` setter on a type-2 dataset: same number of supercells (forces stay) or another number
                     cur_n = len(t.dataset["displacements"]) if t.dataset is not None and "displacements" in t.dataset else None
@@ -656,6 +693,12 @@ def execute(spec):
                     priv = copy.deepcopy(val)
                     ph.dataset = val
                     t.dataset = priv
+                    if val is not None:
+                        # the caller's dictionary (and the dictionaries inside it) must stay as the caller left them
+                        if not hasattr(t, "handed_in_objs"):
+                            t.handed_in_objs = []
+                        t.handed_in_objs[:] = [e for e in t.handed_in_objs if e[0] != "dataset=(dict)"]
+                        t.handed_in_objs.append(["dataset=(dict)", val, snapshot(val)])
                     if val is not None and "displacements" in val:
                         t.handed_in.append(["dataset=.displacements", val["displacements"], val["displacements"].copy()])
                     if val is not None and "first_atoms" in val and "forces" in val["first_atoms"][0]:
